@@ -8,6 +8,7 @@ import (
 	"io"
 	"strings"
 	"testing"
+	"time"
 
 	connect "github.com/bufbuild/connect-go"
 
@@ -265,6 +266,94 @@ func c01Check(c *ev.Collector, env *c01Env, k c01Case) {
 	}
 }
 
+// c01Real runs a reduced batch of every configuration over the real net/http
+// stack (HTTP/1.1 and TLS HTTP/2 on loopback).
+func c01Real(c *ev.Collector) {
+	seqs := seqsUpTo([]string{"z", "a", "p+"}, 2)
+	seqs = append(seqs, []string{"a", "z", "b"}, []string{"z", "z", "a"})
+	idx := 0
+	for _, cfg := range c01Cfgs() {
+		if cfg.ReqMode != memhttp.ReqEager {
+			continue
+		}
+		idx++
+		if !ev.Mine(idx) {
+			continue
+		}
+		if c.Expired() {
+			return
+		}
+		run := &c01Run{}
+		cur := &run
+		h := NewHandler(cfg.Kind, func(ctx context.Context, s HStream) error {
+			r := *cur
+			for {
+				m, err := s.Receive()
+				if err != nil {
+					r.sawEnd = true
+					if !errors.Is(err, io.EOF) {
+						r.handlerEnd = err
+					}
+					break
+				}
+				r.handlerGot = append(r.handlerGot, cloneBytes(m.Value))
+			}
+			for _, p := range r.resps {
+				if err := s.Send(&BV{Value: p}); err != nil {
+					return err
+				}
+			}
+			return nil
+		}, cfg.HandlerOptions()...)
+		srv := NewRealServer(h, cfg.HTTP == 2)
+		cl := NewRealClient(srv, cfg)
+		for i, sq := range seqs {
+			reqs, resps := sq, sq
+			switch cfg.Kind {
+			case KUnary:
+				if len(sq) != 1 {
+					continue
+				}
+			case KClient:
+				resps = []string{"a"}
+			case KServer:
+				reqs = []string{"a"}
+			}
+			k := c01Case{Cfg: cfg, Index: i, Reqs: reqs, Resps: resps}
+			r := &c01Run{resps: payloads(resps)}
+			*cur = r
+			var res CallResult
+			ok := Watchdog(60*time.Second, func() { res = RunCall(context.Background(), cl, cfg.Kind, payloads(reqs), nil) })
+			c.Case("real/"+k.key(), len(reqs)+len(resps) > 0)
+			c.AddTransitions(int64(len(reqs) + len(resps) + 2))
+			c.AddStates(int64(len(reqs) + len(resps) + 1))
+			c.AddTraces(1)
+			c.AddExtra("real_transport_calls", 1)
+			tags := append(cfg.Tags(), "real-transport")
+			tags = append(tags, seqTags(reqs, "req")...)
+			tags = append(tags, seqTags(resps, "resp")...)
+			if !ok {
+				c.NotExhaustive("a call over the real transport did not return within 60 s: " + k.key())
+				return
+			}
+			switch {
+			case !equalMsgs(r.handlerGot, payloads(reqs)):
+				c.Violation("TestC01", "handler-recv-seq", "mismatch", tags, k, "real transport %s: handler received %s, client sent %s", k.key(), shortMsgs(r.handlerGot), shortMsgs(payloads(reqs)))
+				c.Outcome("violation")
+			case res.Err != nil:
+				c.Violation("TestC01", "client-clean-end", "error", tags, k, "real transport %s: client call failed: %v", k.key(), res.Err)
+				c.Outcome("violation")
+			case !equalMsgs(res.Msgs, payloads(resps)):
+				c.Violation("TestC01", "client-recv-seq", "mismatch", tags, k, "real transport %s: client received %s, handler sent %s", k.key(), shortMsgs(res.Msgs), shortMsgs(payloads(resps)))
+				c.Outcome("violation")
+			default:
+				c.Outcome("ok")
+			}
+		}
+		srv.Close()
+	}
+}
+
 func TestC01(t *testing.T) {
 	c := ev.New("C01")
 	defer func() { _ = c.Finish() }()
@@ -315,5 +404,8 @@ func TestC01(t *testing.T) {
 		if i < 3 {
 			c.Sample(map[string]any{"cfg": cfg.String(), "cases": len(batch), "first": fmt.Sprint(batch[min(5, len(batch)-1)])})
 		}
+	}
+	if thorough {
+		c01Real(c)
 	}
 }
